@@ -73,6 +73,28 @@ def abstract_fn(name, returns="obj", raises=(), tags=(), result=None, effect=Non
     return handler
 
 
+def opaque_arithmetic(I, raises=(("any", Exception),)):
+    """Policy for code that computes with opaque (data) values: pure builtins, operators and
+    comparisons applied to them are abstract callees (fresh result, may raise, 'call' event
+    `builtin.<name>` / `operator.<op>` / `compare.<op>`).  Lets a contract still decide when the
+    function under contract does arithmetic on values it should only have passed on."""
+
+    def pure(I_, st, args, kwargs, node):
+        fn = args[0]
+        return abstract_fn(f"builtin.{getattr(fn, '__name__', fn)}", returns="obj", raises=raises)(I_, st, args[1:], kwargs, node)
+
+    I.specs["pure_builtin_obj"] = pure
+
+    def cmp(I_, st, args, kwargs, node):
+        op = args[0]
+        return abstract_fn(f"compare.{op.__name__}", returns="bool", raises=raises)(I_, st, args[1:], kwargs, node)
+
+    I.specs["compare_obj"] = cmp
+    import ast as _ast
+    for op in (_ast.Add, _ast.Sub, _ast.Mult, _ast.Div, _ast.FloorDiv, _ast.Mod, _ast.Pow):
+        I.specs.setdefault(("binop", op), abstract_fn(f"operator.{op.__name__}", returns="obj", raises=raises))
+
+
 def calls(out, name):
     return [e for e in out.st.trace if e.kind == "call" and e.name == name]
 
